@@ -909,7 +909,10 @@ pub(crate) fn add_generic_priv_sleep<W: Write, R, T>(
             if secs < 0.0 {
                 return xerr(ManagedXError::new("sleep time must be non-negative", rt)?);
             }
-            thread::sleep(Duration::from_secs_f64(secs));
+            let Ok(duration) = Duration::try_from_secs_f64(secs) else {
+                return xerr(ManagedXError::new("sleep time is too large", rt)?);
+            };
+            thread::sleep(duration);
 
             Ok(a1.into())
         }),
